@@ -203,10 +203,23 @@ template<class W> struct Driver {
     if (outcome == "ok") { auto it = probe_items(); e.raw("q", probes(*sk[i], it, false)).raw("qw", probes(*sk[10 + i], it, false)); }
     e.emit();
   }
-  void copy(int src, int dst) {
-    sk[dst].reset(new Sk(*sk[src])); cfg[dst] = cfg[src]; prev[dst] = prev[src]; stream[dst] = stream[src]; restored[dst] = restored[src]; ver[dst]++;
-    Ev e("Copy"); e.i("src", src).i("dst", dst); scal(e, dst).raw("cells", numlist(cells(*sk[dst]))).emit();
+  // value semantics between sketches of ANY two configurations: copy / move construction and copy / move ASSIGNMENT over an
+  // existing target (same or different shape, seed, cell count); both sides are used on afterwards
+  void copy(int src, int dst, int how = -1) {
+    if (how < 0) how = (int)g.below(4);
+    if (!sk.count(dst) || !sk[dst]) how = how % 2 == 0 ? 0 : 2;
+    static const char* HOW[] = {"ctor", "assign", "move-ctor", "move-assign"};
+    switch (how) {
+      case 0: sk[dst].reset(new Sk(*sk[src])); break;
+      case 1: *sk[dst] = *sk[src]; break;
+      case 2: { Sk tmp(*sk[src]); sk[dst].reset(new Sk(std::move(tmp))); break; }
+      default: { Sk tmp(*sk[src]); *sk[dst] = std::move(tmp); }
+    }
+    copy_how = HOW[how];
+    cfg[dst] = cfg[src]; prev[dst] = prev[src]; stream[dst] = stream[src]; restored[dst] = restored[src]; ver[dst]++;
+    Ev e("Copy"); e.i("src", src).i("dst", dst).str("how", copy_how); scal(e, dst).raw("cells", numlist(cells(*sk[dst]))).emit();
   }
+  const char* copy_how = "ctor";
   void ser(int i, int b) {
     static const unsigned HS[] = {0, 0, 1, 7, 8, 13, 64};
     unsigned hdr = HS[g.below(7)];
@@ -390,6 +403,15 @@ template<class W> struct Driver {
       single_obs(2, x); do_merge(2, 0); single_obs(2, x);
       single_obs(0, x); do_merge(0, 0); single_obs(0, x);
       both(0, x, 3); both(2, x, 5); obs(0); obs(2);
+      // assignment over a target of the OTHER configuration (copy, then move), sketch and witness alike; then estimates of the
+      // existing items, further updates on both sides, and a merge (now compatible) compared with the witness
+      int how = 1 + 2 * (int)g.below(2);
+      copy(2, 0, how); copy(12, 10, how);
+      obs(0);
+      for (int k = 0; k < 6; k++) { both(0, g.range(1, U), (ull)g.range(1, 20)); both(2, g.range(1, U), (ull)g.range(1, 20)); }
+      obs(0); obs(2);
+      long y = g.range(1, U); single_obs(0, y); first_probe = y; do_merge(0, 2); first_probe = -1; single_obs(0, y);
+      do_merge(2, 0); obs(0); obs(2);
     }
   }
   void twin_obs() { Ev("TwinObs").i("a", twin_a).i("b", twin_b).b("restored", true).emit(); }
